@@ -115,7 +115,9 @@ func runC03(c *Ctx) {
 
 	R.Rule("R-state-set-on-success", "E3+E1", "envelope state advances only on the nil-error edge of the corresponding callback in the same activation", 2)
 	for _, site := range c.Sites("st:Conn.fromReceived=true") {
-		c.obUnreach("fromReceived=true", site, `invoke:Session.Mail != nil`)
+		for _, ea := range c.cbErrAtoms(lMail, "invoke:Session.Mail", site.Parent()) {
+			c.obUnreach("fromReceived=true", site, ea+` != nil`)
+		}
 		seen := s.SeenBefore(site)
 		R.Ob(c.siteKey(site, "fromReceived=true after Session.Mail"), c.P.InstrPos(site), seen[lMail], "store not preceded by a Session.Mail call on every path")
 	}
@@ -140,7 +142,9 @@ func runC03(c *Ctx) {
 		if isNilConst(v) {
 			continue
 		}
-		c.obUnreach("recipients=append", site, `invoke:Session.Rcpt != nil`)
+		for _, ea := range c.cbErrAtoms(lRcpt, "invoke:Session.Rcpt", site.Parent()) {
+			c.obUnreach("recipients=append", site, ea+` != nil`)
+		}
 		seen := s.SeenBefore(site)
 		R.Ob(c.siteKey(site, "recipients append after Session.Rcpt"), c.P.InstrPos(site), seen[lRcpt], "store not preceded by a Session.Rcpt call on every path")
 		// appended value must be the recipient handed to the callback
